@@ -73,6 +73,8 @@ STUBS = [
     "PartView: .real/.imag of a PArray are write-through views (NumPy returns views of a complex array, so in-place updates of the part change the "
     "caller's complex array); slices / results derived from such a view are detached. data_vector_via_transformed_mapping_matrix_from (no branches) "
     "runs as plain Python instead of through the merge interpreter, which would rebind `a /= b` instead of updating in place",
+    "FloatAlloc: object arrays that stand for float allocations (np.zeros & co. through the facade) drop the imaginary part of complex values stored "
+    "into them, as NumPy's float arrays do",
     "case_inversion_stub: StandInTransformer.transform_mapping_matrix returns a symbolic complex matrix (contract: none - it is 'every transformed mapping matrix')",
     "an object-array result whose entries are arrays is treated as a raised exception (NumPy's complex arrays refuse such a store with TypeError)",
 ]
@@ -290,6 +292,27 @@ class PartView(np.ndarray):
         return self._inplace(np.asarray(self) ** o)
 
 
+class FloatAlloc(V.SymArray if hasattr(V, "SymArray") else np.ndarray):
+    """object array standing in for a FLOAT allocation (np.zeros/ones/empty/full through the facade): NumPy casts a complex value
+    stored into a float array to its real part (ComplexWarning only) - an object array would keep the pair.  Only the freshly
+    allocated array carries the flag; arithmetic results (`0j * np.zeros(n)`) and other derived arrays are ordinary object arrays."""
+    _float_alloc = False
+
+    def __array_finalize__(self, obj):
+        self._float_alloc = False
+
+    def __setitem__(self, k, v):
+        if self._float_alloc:
+            if isinstance(v, (SymComplex, complex, np.complexfloating)):
+                v = _part(v, 0)
+            elif isinstance(v, np.ndarray) and (v.dtype.kind == "c" or (v.dtype == object and _has_cplx(v))):
+                v = _part(v, 0)
+        np.ndarray.__setitem__(self, k, v)
+
+
+FloatAlloc.__name__ = FloatAlloc.__qualname__ = "ndarray"
+
+
 def _pview(a):
     """view arrays that hold complex proxies as PArray (so that .real/.imag work inside the repository code)"""
     if isinstance(a, np.ndarray) and a.dtype == object and not isinstance(a, PArray) and _has_cplx(a):
@@ -372,6 +395,21 @@ def POST_INSTALL():
         if isinstance(x, SymComplex) or V.is_sym(x):
             return _part(x, 1)
         return np.imag(x)
+
+    def float_alloc(name):
+        orig = getattr(shim.NPFacade, name)
+
+        def f(self, *a, **kw):
+            r = orig(self, *a, **kw)
+            if isinstance(r, np.ndarray) and r.dtype == object and not isinstance(r, PArray):
+                r = r.view(FloatAlloc)
+                r._float_alloc = True
+            return r
+
+        setattr(shim.NPFacade, name, f)
+
+    for name in ("zeros", "ones", "empty", "full", "zeros_like", "ones_like", "full_like"):
+        float_alloc(name)
 
     shim.NPFacade.real = f_real
     shim.NPFacade.imag = f_imag
